@@ -33,6 +33,14 @@ def gen_cases(ctx):
             loc = [k for k in order if cat[k]["feature"].startswith("ident.template-local") and k not in have]
             if inpkg:
                 chunks += [loc[k:k + CHUNK] for k in range(0, len(loc), CHUNK)]
+        # every variadic method form under every unroll-variadic setting (how the variadic slice is carried depends on the whole parameter list)
+        vidx = [k for k in order if cat[k]["feature"].startswith("method.variadic")]
+        if (inpkg or ctx.tier == "thorough") and vidx:
+            for u in (None, True, False):
+                for k in range(0, len(vidx), CHUNK):
+                    cases.append({"kind": "catalogue", "inpkg": inpkg, "genseed": ctx.seed * 31 + inpkg, "idx": vidx[k:k + CHUNK], "template": "testify", "formatter": "goimports",
+                                  "placement": "inpkg-test" if inpkg else "outpkg", "td": {} if u is None else {"unroll-variadic": u}, "gomod": "plain", "srckind": "ordinary",
+                                  "drvseed": rng.randrange(1, 1 << 20), "td_level": "root"})
         for ch in chunks:
             for rep in range(1 if ctx.tier == "quick" else 3):
                 u = [None, True, False][ci % 3]
@@ -87,7 +95,7 @@ def eval_case(ctx, case):
     inpkg = case["placement"] in mockgen.IN_PACKAGE
     reg, skipped = drvrun.registration(info, usable, case, inpkg)
     drvrun.install_driver(root, info, ["core", "testify"], reg)
-    rounds = 2 if ctx.tier == "quick" else 8
+    rounds = 3 if ctx.tier == "quick" else 9
     r, findings, summary, races = drvrun.run_tests(root, info, "^TestDrvTestify$", {"DRV_SEED": str(case["drvseed"]), "DRV_ROUNDS": str(rounds)})
     td = case.get("td") or {}
     tags = ["placement=" + case["placement"], "unroll=%s" % td.get("unroll-variadic", "unset")]
